@@ -77,7 +77,7 @@ def run(ctx):
         ctx.coverage["events"] = kinds
         ctx.coverage["event_bigrams"] = len(bigrams)
         ctx.coverage["call_outcomes"] = outcomes
-        ctx.coverage["distinct_nontrivial"] = len(bigrams)
+        # distinct_nontrivial stays what ctx.correspond counted (distinct op lines); the bigram count is event_bigrams
     ctx.coverage["rule"] = ("Byte-level (op bb): 160 (thorough 1600) single Fetch exchanges on a fresh Conn — fetch v2/v5/v10 headers, 0–3 magic-0/1 messages with null/empty/random "
                             "keys and values, some below the fetch offset; truncated last message, stream ending inside the frame, set-size mismatch, watermark = offset, partition "
                             "errors, a following frame; 0–4 ReadMessage / Read(cap) calls with capacities around the value lengths, then Close — results, Close error, conn kept and "
@@ -91,7 +91,7 @@ def run(ctx):
                             "Transport: 2–7 goroutines × 1–4 RoundTrips (ListOffsets(tag) to the partition leader, FindCoordinator(g<tag>) on the control group), contexts with deadline / "
                             "cancelled at a scripted time / generous; per-request faults delay, drop, wrong correlation id, close, answer after the deadline; connections are socketpairs; every third scenario is the "
                             "late-answer family (deadline 15–40 ms < scripted delay 80–140 ms, then the same request kind with another tag). Monitors: tag equality at the API and no in-flight id reused by a C.Write. "
-                            "distinct_nontrivial = number of distinct bigrams of event kinds")
+                            "distinct_nontrivial = distinct op lines; event_bigrams = number of distinct bigrams of event kinds")
     concrete = [d for d in dis if d.get("kind") == "disagreement" and not d["holds_on_impl"]]
     others = [d for d in dis if d not in concrete]
     recorded = 0
